@@ -857,10 +857,11 @@ Definition ex12_ntraks (b : bytes) : option nat :=
   | Ok v => Some (length (moov_traks v))
   | _ => None
   end.
-Lemma meta_zero_padding_drops_following_traks_refuted :
+(* After the fix: commit c92578e ("leave the stream at the end of the meta box") the padding is harmless: regression example. *)
+Lemma meta_zero_padding_is_harmless :
   let meta_b := wout (enc_meta (MetaMdir (Some ilst_test))) in
   let udta_b := wout (enc_udta (mkUdta (Some (MetaMdir (Some ilst_test))))) in
-  map (fun n => ex12_ntraks (ex12_moov_padded meta_b n)) [0; 8; 12; 16]%nat = [Some 1; Some 1; Some 0; Some 0]%nat /\
+  map (fun n => ex12_ntraks (ex12_moov_padded meta_b n)) [0; 8; 12; 16]%nat = [Some 1; Some 1; Some 1; Some 1]%nat /\
   map (fun n => ex12_ntraks (ex12_moov_padded udta_b n)) [0; 8; 12; 16]%nat = [Some 1; Some 1; Some 1; Some 1]%nat.
 Proof. vm_compute. split; reflexivity. Qed.
 
@@ -871,11 +872,12 @@ Proof. vm_compute. split; reflexivity. Qed.
     [MetaBox::read_box], as every other container has, the exclusion would not be needed. *)
 Definition ex12_padded_meta : child :=
   ex12_child false (wout (enc_meta (MetaMdir (Some ilst_test)))) (repeat 0 16).
-Lemma meta_padding_makes_sibling_order_matter_refuted :
+(* fixed by c92578e: both orders now give the trak *)
+Lemma meta_padding_sibling_order_irrelevant :
   let mvhd_c := ex12_child false (wout (enc_mvhd mvhd_default)) [] in
   let trak_c := ex12_child false (wout (enc_trak Dbg trak_test)) [] in
   ex12_ntraks (c_bytes (ex12_box false 0x6d6f6f76 [mvhd_c; trak_c; ex12_padded_meta])) = Some 1%nat /\
-  ex12_ntraks (c_bytes (ex12_box false 0x6d6f6f76 [mvhd_c; ex12_padded_meta; trak_c])) = Some 0%nat.
+  ex12_ntraks (c_bytes (ex12_box false 0x6d6f6f76 [mvhd_c; ex12_padded_meta; trak_c])) = Some 1%nat.
 Proof. vm_compute. split; reflexivity. Qed.
 
 (** ** The full statement
